@@ -432,7 +432,7 @@ func (p *plugin) UpdateContainers(ctx context.Context, req *UpdateContainersRequ
 
 // configure the plugin and subscribe it for the events it requested.
 func (p *plugin) configure(ctx context.Context, name, version, config string) (err error) {
-	ctx, cancel := context.WithTimeout(ctx, getPluginRequestTimeout())
+	ctx, cancel := p.requestContext(ctx)
 	defer cancel()
 
 	req := &ConfigureRequest{
@@ -465,7 +465,7 @@ func (p *plugin) configure(ctx context.Context, name, version, config string) (e
 func (p *plugin) synchronize(ctx context.Context, pods []*PodSandbox, containers []*Container) ([]*ContainerUpdate, error) {
 	log.Infof(ctx, "synchronizing plugin %s", p.name())
 
-	ctx, cancel := context.WithTimeout(ctx, getPluginRequestTimeout())
+	ctx, cancel := p.requestContext(ctx)
 	defer cancel()
 
 	var (
@@ -581,7 +581,7 @@ func (p *plugin) createContainer(ctx context.Context, req *CreateContainerReques
 		return nil, nil
 	}
 
-	ctx, cancel := context.WithTimeout(ctx, getPluginRequestTimeout())
+	ctx, cancel := p.requestContext(ctx)
 	defer cancel()
 
 	rpl, err := p.impl.CreateContainer(ctx, req)
@@ -604,7 +604,7 @@ func (p *plugin) updateContainer(ctx context.Context, req *UpdateContainerReques
 		return nil, nil
 	}
 
-	ctx, cancel := context.WithTimeout(ctx, getPluginRequestTimeout())
+	ctx, cancel := p.requestContext(ctx)
 	defer cancel()
 
 	rpl, err := p.impl.UpdateContainer(ctx, req)
@@ -627,7 +627,7 @@ func (p *plugin) stopContainer(ctx context.Context, req *StopContainerRequest) (
 		return nil, nil
 	}
 
-	ctx, cancel := context.WithTimeout(ctx, getPluginRequestTimeout())
+	ctx, cancel := p.requestContext(ctx)
 	defer cancel()
 
 	rpl, err = p.impl.StopContainer(ctx, req)
@@ -649,7 +649,7 @@ func (p *plugin) updatePodSandbox(ctx context.Context, req *UpdatePodSandboxRequ
 		return nil, nil
 	}
 
-	ctx, cancel := context.WithTimeout(ctx, getPluginRequestTimeout())
+	ctx, cancel := p.requestContext(ctx)
 	defer cancel()
 
 	if _, err := p.impl.UpdatePodSandbox(ctx, req); err != nil {
@@ -671,7 +671,7 @@ func (p *plugin) StateChange(ctx context.Context, evt *StateChangeEvent) (err er
 		return nil
 	}
 
-	ctx, cancel := context.WithTimeout(ctx, getPluginRequestTimeout())
+	ctx, cancel := p.requestContext(ctx)
 	defer cancel()
 
 	if err = p.impl.StateChange(ctx, evt); err != nil {
@@ -685,6 +685,22 @@ func (p *plugin) StateChange(ctx context.Context, evt *StateChangeEvent) (err er
 	}
 
 	return nil
+}
+
+// requestContext returns a context bounding a single request to the plugin by the request
+// timeout. If the request is still pending when the timeout expires the plugin is closed: a plugin
+// which has stopped reading its connection could otherwise block us forever while sending.
+func (p *plugin) requestContext(ctx context.Context) (context.Context, context.CancelFunc) {
+	ctx, cancel := context.WithTimeout(ctx, getPluginRequestTimeout())
+	stop := context.AfterFunc(ctx, func() {
+		if errors.Is(ctx.Err(), context.DeadlineExceeded) {
+			p.close()
+		}
+	})
+	return ctx, func() {
+		stop()
+		cancel()
+	}
 }
 
 // isFatalError returns true if the error is fatal and the plugin connection should be closed.
